@@ -106,25 +106,41 @@ def markZombie (w : RW) (k : Nat) : RW :=
 
 def setBar (w : RW) (k : Nat) (b : Bar) : RW := { w with bars := w.bars.modify k (fun rb => { rb with b := b }) }
 
+/-- what a bar renders: nothing once it is finished-and-cleared -/
+def barRows (rb : RBar) : List Row := if rb.b.status = .doneHidden then [] else (formatState rb.b).map (·.gs)
+
+/-- the `DrawStateWrapper` round trip: the member's stored lines are replaced, its text lines are queued -/
+def store (w : RW) (k : Nat) (rows : List Row) (text : List Row) : RW :=
+  { w with bars := w.bars.modify k (fun rb => { rb with lines := rows }), orphan := w.orphan ++ text }
+
 /-- a draw request of bar `k`: store its rendering in its slot, queue its text lines, draw the multi -/
 def barDraw (w : RW) (k : Nat) (force : Bool) (textLines : List Row) : RW :=
-  let rb := w.barAt k
-  if !rb.member then w else
-  let force := force || rb.b.finished
-  let rows : List Row := if rb.b.status = .doneHidden then [] else (formatState rb.b).map (·.gs)
-  let w := { w with bars := w.bars.modify k (fun rb => { rb with lines := rows }), orphan := w.orphan ++ textLines }
-  draw w force []
+  if !(w.barAt k).member then w else
+  draw (store w k (barRows (w.barAt k)) textLines) (force || (w.barAt k).b.finished) []
 
-def finishWith (w : RW) (k : Nat) (b : Bar) (f : Finish) : RW :=
+/-- the logical state after `finish_using_style(f)`: finished; position at the length for the finishing
+variants, unchanged for the abandoning ones; the message if one is given; hidden for the clearing one -/
+def finalBar (b : Bar) (f : Finish) : Bar :=
   let b := { b with status := .doneVisible }
   let toLen (b : Bar) : Bar := match b.len with | some l => { b with pos := l } | none => b
-  let b := match f with
-    | .andLeave => toLen b
-    | .withMessage m => { toLen b with msg := m }
-    | .andClear => { toLen b with status := .doneHidden }
-    | .abandon => b
-    | .abandonWithMessage m => { b with msg := m }
-  barDraw (setBar w k b) k true []
+  match f with
+  | .andLeave => toLen b
+  | .withMessage m => { toLen b with msg := m }
+  | .andClear => { toLen b with status := .doneHidden }
+  | .abandon => b
+  | .abandonWithMessage m => { b with msg := m }
+
+def finishWith (w : RW) (k : Nat) (b : Bar) (f : Finish) : RW := barDraw (setBar w k (finalBar b f)) k true []
+
+/-- dropping the last handle: an unfinished bar is finished by its configured behaviour (forced draw) -/
+def finishIfNot (w : RW) (k : Nat) : RW :=
+  if (w.barAt k).b.finished then w else finishWith w k (w.barAt k).b (w.barAt k).b.onFinish
+
+/-- `Drop for BarState`: finish if need be, tell the multi (`mark_zombie`), the handle is gone -/
+def dropBar (w : RW) (k : Nat) : RW :=
+  let w1 := finishIfNot w k
+  let w2 := if (w.barAt k).member then markZombie w1 k else w1
+  { w2 with bars := w2.bars.modify k (fun rb => { rb with alive := false }) }
 
 def textRows (t : Text) : List Row := let ls := splitLines t; if ls = [] then [[]] else ls
 
@@ -154,10 +170,7 @@ def barStep (w : RW) (k : Nat) (op : BarOp) : RW :=
     barDraw (setBar w k { b with pos := 0, posLim := { b.posLim with prev := w.now - b.start }, status := .inProgress }) k false []
   | .finish f => finishWith w k b f
   | .finishUsingStyle => finishWith w k b b.onFinish
-  | .drop =>
-    let w := if b.finished then w else finishWith w k b b.onFinish
-    let w := if rb.member then markZombie w k else w
-    { w with bars := w.bars.modify k (fun rb => { rb with alive := false }) }
+  | .drop => dropBar w k
 
 def insertAt (l : List Nat) (pos : Nat) (x : Nat) : List Nat := l.take pos ++ [x] ++ l.drop pos
 
